@@ -714,6 +714,12 @@ func (e *Engine) VerifyFunc(bc *BoundContract) (rep *FuncReport) {
 		}
 		restore()
 	}
+	// an assert[call:F] clause that matched no call site checks nothing: the contract no longer fits the code
+	for _, as := range bc.Asserts {
+		if strings.HasPrefix(as.Clause.Name, "call:") && !u.assertHit[as.Clause] {
+			u.addObl(&Obligation{Kind: "assert", Name: "clause matches a call site: assert[" + as.Clause.Name + "] " + strings.Join(strings.Fields(as.Clause.Text), " "), PC: c.True, Goal: c.False, Pos: e.Fset.Position(fn.Pos())})
+		}
+	}
 	if !anyExit && !bc.Recovers {
 		u.addObl(&Obligation{Kind: "cover", Name: "exit reachable", PC: c.False, Goal: c.False, Expect: "sat", Pos: e.Fset.Position(fn.Pos())})
 	}
@@ -815,6 +821,12 @@ func calleesOutside(fn *ssa.Function, allowed []string) []string {
 					name = sf.String()
 				} else if _, isB := cc.Value.(*ssa.Builtin); isB {
 					continue
+				} else if ld, ok := cc.Value.(*ssa.UnOp); ok && ld.Op == token.MUL {
+					if g, ok := ld.X.(*ssa.Global); ok {
+						name = "var " + g.Pkg.Pkg.Path() + "." + g.Name() // call through a package-level function variable
+					} else {
+						name = "dynamic call"
+					}
 				} else {
 					name = "dynamic call"
 				}
